@@ -24,9 +24,11 @@ ASSUMPTIONS = ["analysed events carry an args object (Kineto always writes one)"
                "with only_show_critical_events only markers and flows are judged (events are dropped by design)"]
 PLAN = {"quick": {"shards": 16, "cases": 384, "timeout": 900}, "thorough": {"shards": 16, "cases": 3000, "timeout": 3400}}
 FLOORS = {"quick": {"distinct_nontrivial": 100, "overlays_checked": 150, "counter_files_checked": 60, "flow_pairs_checked": 2000,
-                    "source_events_compared": 12000, "roundtrips": 150, "rank_maps": 50, "second_or_later_file_from_same_object": 80},
+                    "source_events_compared": 12000, "roundtrips": 150, "rank_maps": 50, "second_or_later_file_from_same_object": 80,
+                    "overlays_after_path_change": 12, "rank_update_prior_empty": 10},
           "thorough": {"distinct_nontrivial": 1600, "overlays_checked": 2400, "counter_files_checked": 900, "flow_pairs_checked": 30000,
-                       "source_events_compared": 200000, "roundtrips": 2400, "rank_maps": 800, "second_or_later_file_from_same_object": 1200}}
+                       "source_events_compared": 200000, "roundtrips": 2400, "rank_maps": 800, "second_or_later_file_from_same_object": 1200,
+                       "overlays_after_path_change": 300, "rank_update_prior_empty": 150}}
 
 
 def read_any(path: str) -> Dict[str, Any]:
@@ -51,7 +53,10 @@ def gen_case(rnd, tier: str, i: Any) -> Dict[str, Any]:
             how = rnd.choice(["write_trace", "write_trace", "dump_default", "dump_indent", "dump_compact", "update_rank_after", "update_rank_after"])
             if how == "update_rank_after" and rnd.random() < 0.6 and len(tr["traceEvents"]) < 2000:
                 tr["traceEvents"] = tr["traceEvents"] * 30                           # metadata lands far behind the events
-            files.append({"rank": r, "trace": tr, "gz": rnd.random() < 0.5, "how": how})
+            files.append({"rank": r, "trace": tr, "gz": rnd.random() < 0.5, "how": how,
+                          # what the file said about its rank before update_trace_rank: nothing, an empty object (single-process
+                          # trace), other distributed fields only, or another rank
+                          "prior_info": rnd.choice(["absent", "absent", "empty", "empty", "no_rank", "other_rank"])})
         return {"kind": "files", "files": files, "new_rank": rnd.choice([0, 5, 12, 999])}
     c = cpdrv.gen_case(rnd, tier, i, annotation_nest=rnd.random() < 0.4)
     # rename some files to .json.gz
@@ -59,7 +64,9 @@ def gen_case(rnd, tier: str, i: Any) -> Dict[str, Any]:
         c["files"] = {(fn + ".gz"): tr for fn, tr in c["files"].items()}
     c["kind"] = "overlay"
     c["steps"] = [rnd.choice(["overlay", "overlay", "counters"]) for _ in range(rnd.randint(1, 4))]
-    c["opts"] = [{"only": rnd.random() < 0.4, "all_edges": rnd.random() < 0.5, "show_zero": rnd.random() < 0.3} for _ in c["steps"]]
+    c["opts"] = [{"only": rnd.random() < 0.4, "all_edges": rnd.random() < 0.5, "show_zero": rnd.random() < 0.3,
+                  # what-if before the overlay: one critical span edge made free, critical_path() recomputed on the same graph
+                  "whatif": rnd.random() < 0.5} for _ in c["steps"]]
     return c
 
 
@@ -92,7 +99,8 @@ def check_overlay(A, opt, out_path: str, src_trace, res, tag) -> None:  # noqa: 
     out = read_any(out_path)
     ev = out["traceEvents"]
     src = src_trace["traceEvents"]
-    crit = {int(x) for x in g.critical_path_events_set}
+    # the critical path's events, from the path itself (not from the set the overlay reads)
+    crit = {int(g.node_list[n].ev_idx) for n in g.critical_path_nodes}
     only = opt["only"]
     all_edges = opt["all_edges"] and not only
     if all_edges:
@@ -178,6 +186,20 @@ def run_case(case: Dict[str, Any], ctx: Any) -> core.CaseResult:
                 A = graphs[k % len(graphs)]
                 tag = f"step {k} ({step} {opt if step == 'overlay' else ''}) window={A.annotation!r}/{A.instance} rank={A.rank}"
                 if step == "overlay":
+                    if opt.get("whatif"):
+                        g = A.graph
+                        path = list(g.critical_path_nodes)
+                        cands = [(u, v) for u, v in zip(path, path[1:]) if g.edges[u, v]["weight"] > 0]
+                        # keep a positive weight elsewhere: an all-zero graph trips the library's own path assertion (K3)
+                        if cands and sum(1 for _, _, dd in g.edges(data=True) if dd["weight"] > 0) >= 2:
+                            u, v = core.rng("whatif", case["win_seed"], k).choice(cands)
+                            g.edges[u, v]["weight"] = 0
+                            okw, r = drv.guard(res, "critical_path (what-if)", g.critical_path)
+                            if not okw or r is not True:
+                                continue
+                            res.counters["overlays_after_what_if"] += 1
+                            if list(g.critical_path_nodes) != path:
+                                res.counters["overlays_after_path_change"] += 1
                     out_dir = os.path.join(A.workdir, f"overlay_{k}")
                     with core.env(CRITICAL_PATH_SHOW_ZERO_WEIGHT_LAUNCH_EDGE="1" if opt["show_zero"] else None):
                         ok, path = drv.guard(res, "overlay_critical_path_analysis", A.ta.overlay_critical_path_analysis, A.rank, A.graph, out_dir,
@@ -231,11 +253,15 @@ def _files_case(case, ctx, res) -> None:  # noqa: ANN001
             if how == "write_trace":
                 ok, _ = drv.guard(res, "write_trace", tfile.write_trace, tr, p)
             elif how == "update_rank_after":
+                prior = f.get("prior_info", "absent")
                 tr.pop("distributedInfo", None)
+                if prior != "absent":
+                    tr["distributedInfo"] = {"empty": {}, "no_rank": {"backend": "nccl", "world_size": 8}, "other_rank": {"backend": "nccl", "rank": 4093}}[prior]
+                res.counters[f"rank_update_prior_{prior}"] += 1
                 ok, _ = drv.guard(res, "write_trace", tfile.write_trace, tr, p)
                 if ok:
                     ok, _ = drv.guard(res, "update_trace_rank", tfile.update_trace_rank, p, f["rank"])
-                tr["distributedInfo"] = {"rank": f["rank"]}
+                tr["distributedInfo"] = dict(tr.get("distributedInfo") or {}, rank=f["rank"])
             else:
                 kw = {"dump_default": {}, "dump_indent": {"indent": 2}, "dump_compact": {"separators": (",", ":")}}[how]
                 txt = json.dumps(tr, **kw)
